@@ -46,6 +46,7 @@ def run(P, C, tier):
     C.rule("R4", "both paths check the leaving room, keyed by the previous row's room, when the room changes")
     C.rule("R5", "deletions: both paths use own-rows right for the deleter's own rows/references and all-rows right otherwise")
     C.rule("R6", "every JSON value shape the local path can store for a field is accepted by validate_json_for_entity")
+    C.rule("R7", "a stored row that the local path re-signs under the caller's key passes, locally, the decision the peers will apply to it (author comparison on the row itself)")
     try:
         loc = P.body("RoomAuthorisations::validate_entity_mutation")
         rem = P.body("RoomAuthorisations::validate_node")
@@ -164,3 +165,31 @@ def run(P, C, tier):
              "Json field value shape: remote requires object/array=%s, local mutation path tests the shape=%s" % (remote_shape, local_shape))
     except mir.MissingAnchor as e:
         C.anchor_missing("R6", "validate_json_for_entity", e)
+
+    # ---- R7 rows re-signed by the local path
+    try:
+        n = 0
+        for fn in ("RoomAuthorisations::validate_deletion", "RoomAuthorisations::validate_mutation"):
+            b = P.body(fn)
+            C.saw(b)
+            for bi, t in b.calls_to(r"database::node::Node::sign$|MutationQuery::sign_all$"):
+                n += 1
+                recv = mir.full_path(b, b.call_args(bi)[0])
+                if callee_name(t).endswith("sign_all"):
+                    # the whole mutation: every entity is then decided by validate_entity_mutation with old_node.verifying_key
+                    ok = bool(b.calls_to(r"RoomAuthorisations::validate_entity_mutation$"))
+                    C.ob("R7", "resign:validate_mutation", ok, b.loc(bi), "every re-signed row of a mutation is decided by validate_entity_mutation, which compares the stored author")
+                    continue
+                # validate_deletion: the re-signed rows are deletion_query.updated_nodes
+                decided = False
+                for s2 in rights.can_sites(P, b):
+                    eq, other = author_eq_for(s2)
+                    if other and "updated_nodes" in other:
+                        decided = True
+                C.ob("R7", "resign-without-row-decision:" + recv.split(".")[-2] if "." in recv else "resign:" + recv, decided, b.loc(bi),
+                     "rows of `%s` are re-dated and re-signed under the caller's key (they change author) but no local decision compares their stored author: peers require the all-rows "
+                     "right for such a row (validate_node: old author != new author) while the local path only decided on the reference; a caller owning the reference but not the row, "
+                     "holding only the own-rows right, is accepted locally and refused by every peer" % recv)
+        C.floor("R7", "re-sign sites on the local path", n, 2)
+    except mir.MissingAnchor as e:
+        C.anchor_missing("R7", "validate_deletion", e)
